@@ -75,6 +75,8 @@ TCP_MODES = ("backend", "client", "resolver")
 # ------------------------------------------------------------------------------------------------------ scenario
 def _draw_scenario(world: World, modes: tuple[str, ...]) -> dict:
     mode = modes[world.choose("mode", len(modes))]
+    if world.choose("tail_only", 4) == 3:
+        return _draw_tail_only(world, mode)
     n = 1 + world.choose("naddr", 6)
     addrs: list[tuple[int, str]] = []
     for i in range(n):
@@ -112,6 +114,51 @@ def _draw_scenario(world: World, modes: tuple[str, ...]) -> dict:
                 locals_.append((int(_socket.AF_INET), f"10.1.0.{i + 1}"))
         bind_fail = [i for i in range(3 * n) if world.chance("bindfail", 1, 4)]
     return {"mode": mode, "addrs": addrs, "hed": hed_i, "outcomes": outcomes, "emfile": emfile, "locals": locals_, "bind_fail": bind_fail}
+
+
+def _draw_tail_only(world: World, mode: str) -> dict:
+    """Unequal per-family address counts (1+3, 4+1, 2+4 ...) where only the LAST address of the longer family is
+    reachable and everything else fails in finite time: the race has to get to the very end of the resolved list."""
+    minority = 1 + world.choose("tail.minority", 2)
+    majority = minority + 1 + world.choose("tail.extra", 6 - 2 * minority)
+    fam_major, fam_minor = (_socket.AF_INET, _socket.AF_INET6) if world.choose("tail.major_fam", 2) == 0 else (_socket.AF_INET6, _socket.AF_INET)
+    order = world.choose("tail.order", 3)  # 0: minority first | 1: majority first | 2: alternate while both last
+    fams: list[int] = []
+    a, b = minority, majority
+    if order == 0:
+        fams = [fam_minor] * a + [fam_major] * b
+    elif order == 1:
+        fams = [fam_major] * b + [fam_minor] * a
+    else:
+        while a or b:
+            if b:
+                fams.append(fam_major)
+                b -= 1
+            if a:
+                fams.append(fam_minor)
+                a -= 1
+    last_major = max(i for i, f in enumerate(fams) if f == fam_major)
+    addrs = [(int(f), f"fd00::{i + 1}" if f == _socket.AF_INET6 else f"10.0.0.{i + 1}") for i, f in enumerate(fams)]
+    outcomes: list[tuple] = []
+    for i in range(len(fams)):
+        if i == last_major:
+            outcomes.append(("ok", 0) if mode == "udp" else ("ok", world.choose("tail.t_ok", 3)))
+        elif mode == "udp":
+            outcomes.append(("err", 0, errno.ENETUNREACH, "sync"))
+        else:
+            k = world.choose("tail.err", 3)
+            outcomes.append(("err", world.choose("tail.t", 4), errno.ECONNREFUSED if k == 0 else errno.ENETUNREACH, "sync" if k == 2 else "async"))
+            if k == 2:
+                outcomes[-1] = ("err", 0, errno.ENETUNREACH, "sync")
+    world.probe("scenario_tail_only")
+    return {"mode": mode, "addrs": addrs, "hed": world.choose("hed", 4), "outcomes": outcomes, "emfile": [], "locals": [], "bind_fail": []}
+
+
+def _hed_effective(sc: dict) -> float:
+    v = _hed_value(sc)
+    if v is None:
+        return math.inf if sc["mode"] in ("resolver", "udp") else 0.25
+    return v
 
 
 def _hed_value(sc: dict) -> float | None:
@@ -315,6 +362,7 @@ def _run(world: World, sc: dict, *, cancel_iter: int | None = None, cancel_time:
         with sim_sockets(net):
             run_async(world, amain, det_tasks=True)
         res["started"] = list(started)
+        res["nsock"] = nsock[0]
         res["never_started"] = never_started[0]
         world.log("outcome", mode, label, res["outcome"], type(res["exc"]).__name__ if res["exc"] is not None else "", len(res.get("open", ())))
     finally:
@@ -405,6 +453,26 @@ def _check(world: World, sc: dict, res: dict, family: str, extra: str = "") -> N
                 raise bad("failure-reported-as-oserror-group")
         if res["established"] and not res["cancel_sent"]:
             raise bad("an-attempt-succeeded-but-no-socket-returned")
+    # ---- model-based clauses (independent of the order in which the library races the addresses)
+    if res["cancel_sent"]:
+        return
+    n = len(sc["addrs"])
+    if out == "exc" and not res["hang"] and res["nsock"] != n:
+        # every failing attempt costs exactly one socket() call: all attempts failed <=> every resolved address was tried
+        raise bad("all-fail-means-every-address-was-attempted")
+    if out == "ok" and not (1 <= res["nsock"] <= n):
+        raise bad("one-socket-per-attempted-address")
+    reachable = [a[1] for a, o in zip(sc["addrs"], sc["outcomes"]) if o[0] == "ok"]
+    if reachable and not sc["emfile"] and not sc["locals"]:
+        # some resolved address accepts the connection and nothing but the scripted outcomes can fail an attempt: every
+        # address is attempted eventually unless an earlier one wins, so the call has to succeed.  Only a 'never' attempt
+        # with an infinite stagger delay may legitimately keep the race from ever reaching it.
+        blocked_ok = math.isinf(_hed_effective(sc)) and any(o[0] == "never" for o in sc["outcomes"])
+        if res["hang"]:
+            if not blocked_ok:
+                raise bad("reachable-address-must-connect")
+        elif out != "ok":
+            raise bad("reachable-address-must-connect")
 
 
 # ------------------------------------------------------------------------------------------------------ harnesses
